@@ -1,0 +1,33 @@
+// Package atomicfile replaces the content of a file in one step.
+package atomicfile
+
+import (
+	"os"
+	"path/filepath"
+)
+
+// Write stores data at path without ever exposing a half-written file: the bytes are
+// written to a temporary file in tmpDir (which must be on the same file system) and the
+// temporary file is then renamed over path. If the process dies or a write fails, path
+// still holds its previous content (or still does not exist).
+func Write(path, tmpDir string, data []byte) error {
+	tmpPath := filepath.Join(tmpDir, filepath.Base(path)+".tmp")
+	f, err := os.Create(tmpPath)
+	if err != nil {
+		return err
+	}
+	if _, err := f.Write(data); err != nil {
+		f.Close()
+		os.Remove(tmpPath)
+		return err
+	}
+	if err := f.Close(); err != nil {
+		os.Remove(tmpPath)
+		return err
+	}
+	if err := os.Rename(tmpPath, path); err != nil {
+		os.Remove(tmpPath)
+		return err
+	}
+	return nil
+}
